@@ -52,6 +52,8 @@ CATALOGUE = [
     ("decoder-bg-bright-off-by-one", "C19", "ansi.py", "    103: \"on color(11)\",", "    103: \"on color(12)\","),
     ("fileproxy-drops-empty-lines", "C19", "file_proxy.py", "                lines.append(\"\".join(buffer) + line)", "                if buffer or line:\n                    lines.append(\"\".join(buffer) + line)"),
     ("fileproxy-flush-markup", "C19", "file_proxy.py", "            self.__console.print(output, markup=False, emoji=False, highlight=False)\n            del buffer[:]", "            self.__console.print(\"\".join(buffer))\n            del buffer[:]"),
+    ("live-keeps-stdout-proxy-alive", "C19", "live.py", "                sys.stdout = FileProxy(self.console, sys.stdout)", "                self._stdout_proxy = sys.stdout = FileProxy(self.console, sys.stdout)"),
+    ("progress-redirect-swaps-streams", "C19", "progress.py", "                sys.stderr = FileProxy(self.console, sys.stderr)", "                sys.stderr = sys.stdout if self._redirect_stdout else FileProxy(self.console, sys.stderr)"),
     # ---- C20
     ("pop-does-not-rebind", "C20", "theme.py", "        self._entries.pop()\n        self.get = self._entries[-1].get", "        self._entries.pop()\n        self.get = self._entries[-1].get if len(self._entries) > 1 else self.get"),
     ("use_theme-ignores-inherit", "C20", "console.py", "self.console.push_theme(self.theme, inherit=self.inherit)", "self.console.push_theme(self.theme)"),
